@@ -25,6 +25,18 @@ claim("C09",
       "for all header values; byte-level equality and float precision are not decided.",
       COMMON_NOTE, "ast sibling-agreement + dataflow + interval satisfiability", "DESIGN.md section 3 C09")
 
+claim("C04",
+      "Static conformance analysis (partial, exact) of the writer/reader sibling pairs of the database layout: dataset names written vs read and the field "
+      "each feeds, exactly-one append per object to each of the 9 parallel layout arrays on every path, tuple/zip orders between _createLayout/_initComps/_compose, "
+      "location codes and data-row counts between _packLocationsV3/_unpackLocationsV2, GridParameters/constructor/reduce() argument order and sources, "
+      "linked-dimension format vs regex. Equality of stored values is not decided.",
+      COMMON_NOTE, "ast sibling agreement + all-paths event counting", "DESIGN.md section 3 C04")
+claim("C05",
+      "Static conformance analysis (partial, exact) of pack/unpack siblings: attrs key sets, which unpack branch decodes each pack exit, the None-sentinel "
+      "table vs the reader's dtype dispatch (with numpy's subtype order), exhaustive type dispatch ending in raise, jagged offset step = values appended, "
+      "flag byte order / order-sensitive fast path / remap dictionary, serializer name+version protocol. Value-level round trip is not decided.",
+      COMMON_NOTE, "ast sibling agreement + decision-tree simulation + all-paths event counting", "DESIGN.md section 3 C05")
+
 NA_REASON = {}
 
 
